@@ -63,7 +63,7 @@ type Sys struct {
 	fwd3     common.Address
 	vals     []string // operator addresses
 	// reference model
-	del   map[string]int64  // "<delegator hex>/<validator index>" -> tokens
+	del   map[string]*big.Int // "<delegator hex>/<validator index>" -> tokens
 	votes map[string]string // "<voter hex>" -> option description
 	pid   uint64
 }
@@ -83,8 +83,8 @@ var stakingABI = parseABI(stakingcontract.StakingMetaData.ABI)
 var govABI = parseABI(govcontract.GovMetaData.ABI)
 
 func New(cfg Config) *Sys {
-	s := &Sys{cfg: cfg, w: world.NewWorld(), del: map[string]int64{}, votes: map[string]string{}}
-	s.c = s.w.Add("teleport_9000-10", world.Options{Accounts: []string{"u1", "u2"}, NumVals: 2, GenesisMod: func(cdc codec.Codec, gs map[string]json.RawMessage) {
+	s := &Sys{cfg: cfg, w: world.NewWorld(), del: map[string]*big.Int{}, votes: map[string]string{}}
+	s.c = s.w.Add("teleport_9000-10", world.Options{Accounts: []string{"u1", "u2"}, ExtraCoins: map[string]sdk.Coins{"u2": sdk.NewCoins(sdk.NewCoin("stake", sdk.NewIntWithDecimal(50, 18)))}, NumVals: 2, GenesisMod: func(cdc codec.Codec, gs map[string]json.RawMessage) {
 		var g govtypes.GenesisState
 		cdc.MustUnmarshalJSON(gs[govtypes.ModuleName], &g)
 		g.VotingParams.VotingPeriod = 40_000_000_000 // 40 s
@@ -132,7 +132,7 @@ func New(cfg Config) *Sys {
 	s.pid = 1
 	// the genesis delegation of the first account to both validators is part of the model
 	for i := range s.vals {
-		s.del[fmt.Sprintf("%s/%d", u1.Eth.Hex(), i)] = 1e16
+		s.del[fmt.Sprintf("%s/%d", u1.Eth.Hex(), i)] = big.NewInt(1e16)
 	}
 	return s
 }
@@ -141,9 +141,9 @@ func (s *Sys) Clone() bfs.System {
 	n := *s
 	n.w = s.w.Clone()
 	n.c = n.w.Chains["teleport_9000-10"]
-	n.del = map[string]int64{}
+	n.del = map[string]*big.Int{}
 	for k, v := range s.del {
-		n.del[k] = v
+		n.del[k] = new(big.Int).Set(v)
 	}
 	n.votes = map[string]string{}
 	for k, v := range s.votes {
@@ -248,6 +248,7 @@ func (s *Sys) observe() obs {
 	for _, m := range []string{authtypes.FeeCollectorName, "bonded_tokens_pool", "not_bonded_tokens_pool", "gov", "distribution"} {
 		o.bal[m] = s.c.App.BankKeeper.GetBalance(ctx, authtypes.NewModuleAddress(m), "stake").Amount.String()
 	}
+	o.bal["depositor"] = s.c.App.BankKeeper.GetBalance(ctx, s.c.Accounts["u1"].Acc, "stake").Amount.String()
 	o.supply = s.c.App.BankKeeper.GetSupply(ctx, "stake").Amount.String()
 	o.slot = s.c.App.EvmKeeper.GetState(ctx, s.fwd, common.Hash{}).Hex()
 	return o
@@ -271,8 +272,8 @@ func (o obs) String() string {
 func (s *Sys) modelString() string {
 	var ks []string
 	for k, v := range s.del {
-		if v != 0 {
-			ks = append(ks, fmt.Sprintf("%s=%d", k, v))
+		if v.Sign() != 0 {
+			ks = append(ks, fmt.Sprintf("%s=%s", k, v))
 		}
 	}
 	for k, v := range s.votes {
@@ -300,13 +301,19 @@ func (s *Sys) Apply(op string) (out, class string, viols []bfs.Viol) {
 		}
 		// coins "burned" by governance (deposits of a proposal without quorum) end up with the fee collector
 		// (which distribution sweeps at the next BeginBlock): gov's loss = collector + distribution gain
-		num := func(x string) int64 { v, _ := new(big.Int).SetString(x, 10); return v.Int64() }
-		lost := num(before.bal["gov"]) - num(after.bal["gov"])
-		gained := num(after.bal[authtypes.FeeCollectorName]) + num(after.bal["distribution"]) - num(before.bal[authtypes.FeeCollectorName]) - num(before.bal["distribution"])
-		if lost > 0 {
+		num := func(x string) *big.Int { v, _ := new(big.Int).SetString(x, 10); return v }
+		delta := func(k string) *big.Int { return new(big.Int).Sub(num(after.bal[k]), num(before.bal[k])) }
+		lost := new(big.Int).Neg(delta("gov"))
+		burned := new(big.Int).Add(delta(authtypes.FeeCollectorName), delta("distribution"))
+		refunded := delta("depositor")
+		if lost.Sign() > 0 {
 			class = "advance past the voting period (deposit burned)"
-			if gained != lost {
-				add("burned-coins-not-in-fee-collector", fmt.Sprintf("gov lost %d, fee collector + distribution gained %d", lost, gained))
+			if refunded.Sign() > 0 {
+				class = "advance past the voting period (deposit refunded)"
+			}
+			// what leaves the gov account goes back to the depositor or, when "burned", to the fee collector — it never disappears
+			if new(big.Int).Add(burned, refunded).Cmp(lost) != 0 {
+				add("burned-coins-not-in-fee-collector", fmt.Sprintf("gov lost %s, fee collector + distribution gained %s, depositor %s", lost, burned, refunded))
 			}
 			return "advanced", class, append(viols, s.compareModel(add)...)
 		}
@@ -384,16 +391,22 @@ func (s *Sys) Apply(op string) (out, class string, viols []bfs.Viol) {
 		}
 		return 0
 	}
-	amt := func(x string) int64 { v, _ := new(big.Int).SetString(x, 10); return v.Int64() }
+	amt := func(x string) *big.Int { v, _ := new(big.Int).SetString(x, 10); return v }
+	bump := func(k string, d *big.Int, sign int64) {
+		if s.del[k] == nil {
+			s.del[k] = new(big.Int)
+		}
+		s.del[k].Add(s.del[k], new(big.Int).Mul(d, big.NewInt(sign)))
+	}
 	for _, g := range segs {
 		switch g[0] {
 		case "delegate":
-			s.del[key(vi(g[1]))] += amt(g[2])
+			bump(key(vi(g[1])), amt(g[2]), 1)
 		case "undelegate":
-			s.del[key(vi(g[1]))] -= amt(g[2])
+			bump(key(vi(g[1])), amt(g[2]), -1)
 		case "redelegate":
-			s.del[key(vi(g[1]))] -= amt(g[3])
-			s.del[key(vi(g[2]))] += amt(g[3])
+			bump(key(vi(g[1])), amt(g[3]), -1)
+			bump(key(vi(g[2])), amt(g[3]), 1)
 		case "withdraw":
 		case "vote":
 			s.votes[caller.Hex()] = fmt.Sprintf("%s:1.000000000000000000", g[2])
@@ -445,7 +458,10 @@ func (s *Sys) compareModel(add func(sig, d string)) []bfs.Viol {
 	for n, a := range s.actors() {
 		for i := range s.vals {
 			k := fmt.Sprintf("%s/%d", a.Hex(), i)
-			want := fmt.Sprint(s.del[k])
+			want := "0"
+			if s.del[k] != nil {
+				want = s.del[k].String()
+			}
 			got := o.del[k]
 			if got == "" {
 				got = "0"
